@@ -226,9 +226,40 @@ func (bs *blockState) makeMap(x *ssa.MakeMap) {
 	e.regs[x] = Val{x.Type(), []string{r}}
 }
 
+// mapVarName: the variable or field a map operand was read from (for ghost anchors `mapupdate <name>#k before`)
+func mapVarName(v ssa.Value) string {
+	if u, ok := v.(*ssa.UnOp); ok {
+		switch a := u.X.(type) {
+		case *ssa.Alloc:
+			return a.Comment
+		case *ssa.FreeVar:
+			return a.Name()
+		case *ssa.FieldAddr:
+			return a.X.Type().Underlying().(*types.Pointer).Elem().Underlying().(*types.Struct).Field(a.Field).Name()
+		}
+	}
+	return ""
+}
+
 func (bs *blockState) mapUpdate(x *ssa.MapUpdate) {
 	e := bs.e
 	mt := x.Map.Type().Underlying().(*types.Map)
+	if name := mapVarName(x.Map); name != "" && e.spec != nil && len(e.spec.Ghost) > 0 {
+		// ordinal among the updates of maps read from that name, in block order
+		n, ord := 0, 0
+		for _, b := range e.fn.Blocks {
+			for _, ins := range b.Instrs {
+				if mu, ok := ins.(*ssa.MapUpdate); ok && mapVarName(mu.Map) == name {
+					n++
+					if mu == x {
+						ord = n
+					}
+				}
+			}
+		}
+		kv := bs.val(x.Key)
+		bs.ghostAt(fmt.Sprintf("mapupdate %s#%d before", name, ord), x, map[string]Val{"key": kv, "value": bs.val(x.Value)})
+	}
 	m := bs.val(x.Map).C[0]
 	bs.assertG(fmt.Sprintf("nilmap.%d", e.ordinal("nilmap")), "nil", not(eq(m, "0")), "assignment to entry in nil map", x)
 	kid := mapKeyId(e, mt.Key(), bs.val(x.Key))
